@@ -103,14 +103,20 @@ def rsa_ok(priv, ct):
     from Crypto.Cipher import PKCS1_v1_5
     if len(ct) != priv.size_in_bytes():
         return False
-    return PKCS1_v1_5.new(priv).decrypt(ct, None) is not None
+    try:
+        return PKCS1_v1_5.new(priv).decrypt(ct, None) is not None
+    except ValueError:      # "Ciphertext too large": not a valid ciphertext for this modulus
+        return False
 
 
 def rsa_pt(priv, ct):
     from Crypto.Cipher import PKCS1_v1_5
     if len(ct) != priv.size_in_bytes():
         return b""
-    r = PKCS1_v1_5.new(priv).decrypt(ct, None)
+    try:
+        r = PKCS1_v1_5.new(priv).decrypt(ct, None)
+    except ValueError:
+        return b""
     return b"" if r is None else r
 
 
